@@ -8,7 +8,7 @@
    model the witnesses meet the statement; no general proof of it exists (it needs the inversion of the tokenizer on the
    formatter's output).  Proved: *)
 Require Import Bebop.front.Tok Bebop.front.Parse Bebop.front.Fmt Bebop.front.FmtFacts Bebop.front.FmtSafe.
-Require Import Bebop.front.LexInv Bebop.front.ParseInv Bebop.front.FmtInv.
+Require Import Bebop.front.LexInv Bebop.front.ParseInv Bebop.front.FmtInv Bebop.front.MsgInv.
 From Coq Require Import List.
 
 Definition C16_partial_statement : Prop :=
@@ -40,3 +40,17 @@ Proof.
   exists y. auto.
 Qed.
 Print Assumptions C16_structs.
+
+(* and with messages (front/MsgInv.v): any sequence of struct and message definitions, indices any decimal literal denoting
+   1 .. 255 and distinct within a message, every layout *)
+Definition C16_records_statement : Prop :=
+  forall dl l tail,
+    Forall defn_ok dl -> map snd l = defs_lex dl -> Forall (fun p => hws (fst p)) l -> sep_ok l -> hws tail ->
+    exists y, (exists s, format (render l tail) = POk y s) /\
+              (exists s, read_file y false = POk (dfile_of dl) s) /\ (exists s, read_file (render l tail) false = POk (dfile_of dl) s).
+Theorem C16_records : C16_records_statement.
+Proof.
+  intros dl l tail H1 H2 H3 H4 H5. destruct (defs_format_laws dl l tail H1 H2 H3 H4 H5) as (y & Hf & _ & _ & Hr & Hr0).
+  exists y. auto.
+Qed.
+Print Assumptions C16_records.
